@@ -21,10 +21,11 @@ NameOK(ev) ==
   /\ ev.parse_ok                      \* parses from its string
   /\ ev.show = ev.str                 \* prints back to the identical string
   /\ ev.clap = ev.str                 \* offered by the command-line value list under exactly that string
+  /\ ev.capi = "handle"               \* and accepted by the C constructor (src/c_api/decoder.rs)
 
 VariantsOK(ev) == ev.o = "ok" /\ Len(ev.names) = 36 /\ SeqToSet(ev.names) = Names
 
-NonMemberOK(ev) == ev.o = "ok" /\ ev.str \notin Names /\ ~ev.parse_ok
+NonMemberOK(ev) == ev.o = "ok" /\ ev.str \notin Names /\ ~ev.parse_ok /\ ev.capi \in {"null", "na"}   \* rejected by FromStr and by the C constructor
 
 TableOK(ev) ==
   /\ ev.o = "ok"
